@@ -335,6 +335,42 @@ Proof.
 Qed.
 (* END *)
 
+(* ---------- iter.rs: the immutable row / column views ---------- *)
+(* BEGIN Matrix_iter_nth_major_axis_vector_unchecked *)
+Lemma gen_Matrix_iter_nth_major_axis_vector_unchecked {A} c (m : matrix A) n :
+  G_Matrix_iter_nth_major_axis_vector_unchecked c m n = iter_nth_major_axis_vector_unchecked c m n.
+Proof.
+  unfold G_Matrix_iter_nth_major_axis_vector_unchecked, iter_nth_major_axis_vector_unchecked, mminor. gsimp.
+  destruct (umul c n _) as [k|w|w]; cbn [bind]; try reflexivity; gsimp; try reflexivity; destruct (zview _ _ _ _); reflexivity.
+Qed.
+(* END *)
+(* BEGIN Matrix_iter_nth_minor_axis_vector_unchecked *)
+Lemma gen_Matrix_iter_nth_minor_axis_vector_unchecked {A} c (m : matrix A) n :
+  G_Matrix_iter_nth_minor_axis_vector_unchecked c m n = iter_nth_minor_axis_vector_unchecked c m n.
+Proof.
+  unfold G_Matrix_iter_nth_minor_axis_vector_unchecked, iter_nth_minor_axis_vector_unchecked, mmajor. gsimp.
+  destruct (umul c n _) as [k|w|w]; cbn [bind]; try reflexivity; gsimp; try reflexivity; destruct (zview _ _ _ _); reflexivity.
+Qed.
+(* END *)
+(* BEGIN Matrix_iter_nth_major_axis_vector *)
+Lemma gen_Matrix_iter_nth_major_axis_vector {A} c (m : matrix A) n :
+  G_Matrix_iter_nth_major_axis_vector c m n = iter_nth_major_axis_vector c m n.
+Proof.
+  unfold G_Matrix_iter_nth_major_axis_vector, iter_nth_major_axis_vector, mmajor. gsimp.
+  destruct (n >=? major (m_shape m)); [reflexivity|]. rewrite gen_Matrix_iter_nth_major_axis_vector_unchecked.
+  destruct (iter_nth_major_axis_vector_unchecked c m n); reflexivity.
+Qed.
+(* END *)
+(* BEGIN Matrix_iter_nth_minor_axis_vector *)
+Lemma gen_Matrix_iter_nth_minor_axis_vector {A} c (m : matrix A) n :
+  G_Matrix_iter_nth_minor_axis_vector c m n = iter_nth_minor_axis_vector c m n.
+Proof.
+  unfold G_Matrix_iter_nth_minor_axis_vector, iter_nth_minor_axis_vector, mminor. gsimp.
+  destruct (n >=? minor (m_shape m)); [reflexivity|]. rewrite gen_Matrix_iter_nth_minor_axis_vector_unchecked.
+  destruct (iter_nth_minor_axis_vector_unchecked c m n); reflexivity.
+Qed.
+(* END *)
+
 (* ---------- iter/iter_mut.rs: the two pointer-level state machines ---------- *)
 (* BEGIN IterNthVectorMut_assemble *)
 Lemma gen_IterNthVectorMut_assemble c es al base bytes lower stride length :
